@@ -87,13 +87,19 @@ Proof. exact replace_in_cell_cycle. Qed.
 (* the artefacts handed to the contraction (grouping of the artefact vertices): none is empty and each consists of artefact vertices only *)
 Theorem C15_artefacts_consist_of_artefact_vertices : forall m g, In g (artefacts m) -> g <> [] /\ forall v, In v g -> In v (get_artifacts m).
 Proof. exact artefacts_consist_of_artefact_vertices. Qed.
+(* in a mesh whose cell cycles repeat no vertex and in which every artefact vertex lists the cells it occurs in (executable premises t3_hyps,
+   evaluated on recorded states), the contraction leaves no artefact vertex in any cell cycle - the cells name only vertices that survive it -
+   and no cycle repeats a vertex afterwards *)
+Theorem C15_contraction_leaves_no_artefact_vertex_in_a_cell : forall m art, t3_hyps m art = true ->
+  (forall c, NoDup (aget [] c (mcells (t3 m art)))) /\ forall v c, In v art -> ~ In v (aget [] c (mcells (t3 m art))).
+Proof. exact t3_leaves_no_artefact_vertex_in_a_cell. Qed.
 (* non-vacuity: a triangle 1-2-3 between the cells 10, 11, 12 with one outgoing mesh edge per corner is contracted to vertex 7 *)
 Example C15_contraction_example :
   let m := mkM [1; 2; 3; 4; 5; 6] [(1, [0; 2; 3]); (2, [0; 1; 4]); (3, [1; 2; 5]); (4, [3]); (5, [4]); (6, [5])]
                [(1, [10; 11]); (2, [10; 12]); (3, [11; 12]); (4, [10; 11]); (5, [10; 12]); (6, [11; 12])]
                [(0, (1, 2, false)); (1, (2, 3, false)); (2, (3, 1, false)); (3, (1, 4, false)); (4, (2, 5, false)); (5, (3, 6, false))]
                [(10, [4; 1; 2; 5]); (11, [6; 3; 1; 4]); (12, [5; 2; 3; 6])] in
-  get_artifacts m = [1; 2; 3] /\ artefacts m = [[1; 2; 3]] /\
+  get_artifacts m = [1; 2; 3] /\ artefacts m = [[1; 2; 3]] /\ t3_hyps m [1; 2; 3] = true /\
   mesh_eqb (t3 m [1; 2; 3])
            (mkM [4; 5; 6; 7] [(4, [3]); (5, [4]); (6, [5]); (7, [3; 4; 5])] [(4, [10; 11]); (5, [10; 12]); (6, [11; 12]); (7, [10; 11; 12])]
                 [(3, (7, 4, false)); (4, (7, 5, false)); (5, (7, 6, false))] [(10, [4; 7; 5]); (11, [6; 7; 4]); (12, [5; 7; 6])]) = true.
@@ -120,3 +126,4 @@ Print Assumptions C15_contraction_vertex_is_new.
 Print Assumptions C15_contraction_keeps_every_cell.
 Print Assumptions C15_cell_cycle_after_replacement.
 Print Assumptions C15_artefacts_consist_of_artefact_vertices.
+Print Assumptions C15_contraction_leaves_no_artefact_vertex_in_a_cell.
